@@ -349,6 +349,25 @@ class Sess:
             # more than a whole second without traffic: nothing about the next request may depend on wall-clock time
             self.idled = True
             time.sleep(1.15)
+        if (getattr(self, "opened", False) and v3 and cfg.auth and cfg.priv and cfg.priv_kt != "master" and self.st.get("auth")
+                and rng.random() < self.k.get("refused_keys", 0.03)):
+            # a key change that is refused (unusable privacy key) on the live socket: it raises, sends nothing and leaves
+            # everything - engine id, user, keys, salt counter - as it was; the steps that follow are judged as usual
+            try:
+                u = getattr(self, "user_obj", None) or rigp.make_user(cfg, self.engine_id)
+                junk = b"" if cfg.priv_kt == "password" else b"\x01" * 5
+                try:
+                    self.drv.s._sock.set_keys(u.name, u.get_auth_alg(), u.get_auth_key(), u.get_priv_alg(), junk)
+                    accepted = True
+                except Exception:
+                    accepted = False
+                with RES_LOCK:
+                    res["ops"]["refused_keys"] = res["ops"].get("refused_keys", 0) + 1
+                    if accepted and (not aspects or "outcome" in aspects) and len(res["bad"]) < 200:
+                        res["bad"].append({"aspect": "outcome", "msg": "set_keys with an unusable privacy key (%r) was accepted" % junk, "cfgkey": cfg.key(), "cfg": cfg.to_json(),
+                                           "op": "refused_keys", "args": "", "behaviour": "", "outcome": "accepted", "datagram": None, "state": {}})
+            except Exception as e:   # harness-side problem (e.g. no private socket attribute): not a verdict
+                res["harness"].append("refused_keys: %r" % e)
         if not getattr(self, "opened", False):
             op = "open"
             forced = None
@@ -393,6 +412,10 @@ class Sess:
         elif op == "get_many":
             n = rng.choice([0, 1, 2, 5, 17, 40, 60, rng.randrange(0, 61)])
             oids = [rng.choice(keys) if keys and rng.random() < 0.5 else M.gen_oid(rng, 2, rng.choice([4, 14, 30, 128] if n < 20 else [4, 14, 30])) for _ in range(n)]
+            if rng.random() < 0.04:
+                # more names than a u8 counts (short ones, so that the request still fits)
+                n = rng.choice([255, 256, 257])
+                oids = [(1, 3, rng.randrange(128), rng.randrange(128), k % 128) for k in range(n)]
             args = ([B.oid_text(o) for o in oids],)
             self.exp = {"tag": B.PDU_GET, "a": 0, "b": 0, "oids": oids, "report": v3 and n == 0}
             self.want = ("ok", {B.oid_text(o): self.mib.get(o)[2] for o in oids if self.mib.get(o)})
